@@ -81,10 +81,13 @@ func (n NativeRemoveFn) Call(i *Interpreter, arguments []interface{}) (interface
 		return nil, fmt.Errorf("array index out of bounds")
 	}
 
-	// Remove the element at the specified index
-	array = append(array[:index], array[index+1:]...)
+	// Build the result in a new array: removing in place would shift the
+	// elements of the argument as well
+	result := make([]interface{}, 0, len(array)-1)
+	result = append(result, array[:index]...)
+	result = append(result, array[index+1:]...)
 
-	return array, nil
+	return result, nil
 }
 
 func (n NativeRemoveFn) Arity() int {
